@@ -98,6 +98,55 @@ LOOPS = {('_characters_good', 0): {'modifies': [], 'inv': _inv_chars_good},
          ('_characters_fix', 0): {'modifies': ['identifier'], 'inv': _inv_chars_fix}}
 
 
+def _inv_abs(entry, env, lo, i, hi):
+    s = entry['pattern'][1]; k = Int('kq_abs%d' % next(S._n))
+    return [('no-wildcard-so-far', ForAll([k], Implies(And(lo <= k, k < i), And(s.a[k] != 42, s.a[k] != 63)), patterns=[s.a[k]]))]
+
+
+PATTERN_LOOPS = {('_is_pattern_absolute', 0): {'modifies': [], 'inv': _inv_abs}}
+
+
+def run_patterns(repo):
+    """C13: _is_pattern_absolute(pattern, is_case, is_re)  <=>  is_case and not is_re and no '*' / '?' in pattern  (for Boolean flags)"""
+    import hashlib
+    from z3 import Bool
+    tree = ast.parse(open(os.path.join(repo, 'spydrnet/util/patterns.py')).read())
+    fns = [n for n in tree.body if isinstance(n, ast.FunctionDef) and n.name == '_is_pattern_absolute']
+    results = []; shas = {}; degraded = {}
+    if not fns:
+        return results, shas, {'_is_pattern_absolute': 'function not found'}
+    fn = fns[0]
+    shas['patterns._is_pattern_absolute'] = hashlib.sha256(ast.dump(fn).encode()).hexdigest()[:16]
+    # wrap the module-level function as a method of a synthetic class (the body is the real AST, unchanged)
+    m = ast.FunctionDef(name=fn.name, args=ast.arguments(posonlyargs=[], args=[ast.arg(arg='self')] + fn.args.args, kwonlyargs=[], kw_defaults=[], defaults=[]),
+                        body=fn.body, decorator_list=[], lineno=fn.lineno, col_offset=0)
+    cls = ast.ClassDef(name='Patterns', bases=[], keywords=[], body=[m], decorator_list=[])
+    se = S.StrSE(cls, {}, {}, PATTERN_LOOPS)
+    st = S.St([])
+    p = S.fresh_str('pattern'); ic = Bool('is_case'); ir = Bool('is_re')
+    st.pc += [p.n >= 0]
+    try:
+        se.call_method(st, '_is_pattern_absolute', [('str', p), ('bool', ic), ('bool', ir)], lambda s_, v: se.exit(s_, 'normal', v))
+    except S.Unsupported as e:
+        return results, shas, {'_is_pattern_absolute': 'left-subset: %s' % e}
+    k = Int('kq_pa')
+    spec = And(ic, Not(ir), ForAll([k], Implies(And(0 <= k, k < p.n), And(p.a[k] != 42, p.a[k] != 63)), patterns=[p.a[k]]))
+    agg = {}
+    for name, hyps, goal in se.obligations:
+        r = S.discharge(hyps, goal); agg['C13/%s' % name] = r
+    for s_, kind, val in se.outcomes:
+        if kind != 'normal':
+            r = S.discharge(s_.pc, BoolVal(False)); nm = 'C13/_is_pattern_absolute/exit=%s/does-not-raise' % kind
+        else:
+            r = S.discharge(s_.pc, val[1] == spec); nm = 'C13/_is_pattern_absolute/exit=normal/result-iff-exact-pattern'
+        cur = agg.get(nm)
+        if cur is None or (cur[0] == 'discharged' and r[0] != 'discharged'): agg[nm] = r
+    for n_, r in sorted(agg.items()):
+        results.append((n_, r[0], round(r[1], 3), r[2], r[3]))
+    if not agg: results.append(('VACUITY/_is_pattern_absolute/no-obligations', 'failed', 0.0, 'zero obligations', ''))
+    return results, shas, degraded
+
+
 def load(repo):
     tree = ast.parse(open(os.path.join(repo, FILE)).read())
     cls = [n for n in tree.body if isinstance(n, ast.ClassDef) and n.name == CLASS][0]
@@ -223,7 +272,10 @@ def run(repo, only=None):
 if __name__ == '__main__':
     import sys
     sys.setrecursionlimit(20000)
-    res, shas, deg = run(os.environ.get('VERIF_REPO', '/repo'), only=sys.argv[1:] or None)
+    if sys.argv[1:] == ['patterns']:
+        res, shas, deg = run_patterns(os.environ.get('VERIF_REPO', '/repo'))
+    else:
+        res, shas, deg = run(os.environ.get('VERIF_REPO', '/repo'), only=sys.argv[1:] or None)
     for r in res:
         print('%-70s %-11s %6.2fs %s %s' % (r[0], r[1], r[2], r[4], r[3][:90]))
     print('degraded:', deg)
